@@ -188,7 +188,7 @@ fn case<B: Fld, E: FieldElement<BaseField = B>, H: ElementHasher<BaseField = B>>
     let last_domain = domain / c.fold.pow(layers as u32);
     let rem_size = last_domain / c.blowup;
     let (f, fkind) = far_function::<B, E>(rng, n, domain);
-    let strategy = ["honest-folding", "remainder-after-queries", "remainder-plus-vanishing", "tampered-layer-value", "wrong-alpha", "omitted-layer", "swapped-layers", "wrong-degree-claim", "oversized-remainder", "claimed-evaluation-mismatch"][(i % 10) as usize];
+    let strategy = ["honest-folding", "remainder-after-queries", "remainder-plus-vanishing", "tampered-layer-value", "wrong-alpha", "omitted-layer", "swapped-layers", "wrong-degree-claim", "oversized-remainder", "claimed-evaluation-mismatch", "partitioned-layout"][(i % 11) as usize];
     let desc = |extra: &str| {
         J::obj(vec![("config", J::s(tag)), ("strategy", J::s(strategy)), ("function", J::s(&fkind)), ("blowup", J::i(c.blowup)), ("folding", J::i(c.fold)), ("remainder_max_degree", J::i(c.rem)), ("degree_bound", J::i(n - 1)), ("domain", J::i(domain)), ("queries", J::i(c.queries)), ("layers", J::i(layers)), ("detail", J::s(extra))])
     };
@@ -287,6 +287,49 @@ fn case<B: Fld, E: FieldElement<BaseField = B>, H: ElementHasher<BaseField = B>>
                 return;
             };
             verdict(st, "remainder substituted after the query positions were known", proof, inst.commitments, &f, &inst.positions, n - 1, None);
+        },
+        "partitioned-layout" => {
+            // a hand-written prover that commits every layer in the layout with 2^k partitions (the
+            // partition count travels in the proof and is the prover's choice). (a) honest folding of
+            // the far function; (b) a function built to be consistent for a verifier that takes the
+            // LEAF INDEX of a row for its position in the folded domain: N^L random small polynomials
+            // on the last domain, unfolded L times with the coordinates offset*g^index(r), folded by the
+            // prover with those coordinates; with respect to the true coordinates it is far from low
+            // degree (checked by interpolation), so it must be rejected
+            if layers == 0 {
+                st.count("skipped.no_layers");
+                return;
+            }
+            let max_log = last_domain.ilog2().min(3) as usize;
+            if max_log == 0 {
+                st.count("skipped.no_room_for_partitions");
+                return;
+            }
+            let log_parts = rng.range(1, max_log) as u8;
+            let pos: Vec<usize> = (0..c.queries).map(|_| rng.usize(domain)).collect();
+            let (fvals, coord, what) = if rng.bool() {
+                (f.clone(), frih::RowCoord::DomainPosition, "honest folding in the partitioned layout")
+            } else {
+                let Some(g0) = frih::unfolded_function::<B, E>(rng, domain, &opts, log_parts, frih::RowCoord::LeafIndex, rem_size.max(1)) else {
+                    st.count("skipped.no_room_for_partitions");
+                    return;
+                };
+                // far from the bound with respect to the true coordinates?
+                let mut co = g0.clone();
+                let tw = winter_math::fft::get_inv_twiddles::<B>(domain);
+                winter_math::fft::interpolate_poly_with_offset(&mut co, &tw, B::GENERATOR);
+                if polynom::degree_of(&co) <= n - 1 {
+                    st.count("skipped.unfolded_function_happens_to_be_low_degree");
+                    return;
+                }
+                (g0, frih::RowCoord::LeafIndex, "rows folded with the coordinate of their leaf index")
+            };
+            let Some(m) = frih::manual_prove::<B, E, H>(&fvals, &opts, &pos, log_parts, coord) else {
+                st.count("skipped.no_room_for_partitions");
+                return;
+            };
+            st.count(&format!("partitioned.{}", if coord == frih::RowCoord::LeafIndex { "leaf_index_confusion" } else { "honest_folding" }));
+            verdict(st, what, m.proof, m.commitments, &fvals, &pos, n - 1, None);
         },
         "claimed-evaluation-mismatch" => {
             // an honest proof (for the far function or for a genuine low-degree polynomial), but the
@@ -453,12 +496,12 @@ fn main() {
     drive::<B128, B128, Blake3_192<B128>>(&run, "f128/Blake3_192", n);
     drive::<B128, QuadExtension<B128>, Sha3_256<B128>>(&run, "f128^2/Sha3_256", n / 2);
     let mut require = Vec::new();
-    for s in ["honest-folding", "remainder-after-queries", "remainder-plus-vanishing", "tampered-layer-value", "wrong-alpha", "omitted-layer", "swapped-layers", "wrong-degree-claim", "oversized-remainder", "claimed-evaluation-mismatch"] {
+    for s in ["honest-folding", "remainder-after-queries", "remainder-plus-vanishing", "tampered-layer-value", "wrong-alpha", "omitted-layer", "swapped-layers", "wrong-degree-claim", "oversized-remainder", "claimed-evaluation-mismatch", "partitioned-layout"] {
         require.push((format!("rejected.{s}"), 20));
     }
     require.push(("oracle.recomputed_rejection_required".into(), 50));
     run.finish(Finish {
-        rule: "instances: blowup 2..32 x folding 2..16 x remainder max degree 0..31 x degree bounds 3..511, domain 16..4096, 100 queries (honest-folding acceptance probability <= max(1/blowup,3/4)^q <= 2^-40); functions: random, polynomial of degree bound+1, of degree in (bound+1..domain-1), of degree domain-1, low-degree corrupted on 1/4, 1/2, 3/4 of the domain; strategies (all commit honestly to each folded layer): honest folding, remainder interpolated through the queried points after seeing them, honest remainder + c*vanishing polynomial of the queried points, oversized remainder, one layer value tampered, folding with alpha+1 at one layer (also for genuine low-degree inputs; cases in which alpha+1 folds identically are not deviations and are skipped), evaluations claimed to the verifier that differ from the committed first layer at queried positions sharing a coset with other queried positions (altered one first / middle / last in the list), a layer omitted / two layers swapped (with and without the matching commitment edit), too small a degree claim for a genuine polynomial. Expected: rejected or unparsable; an acceptance under honest folding is tolerated only if an independent recomputation (last layer refolded with the coin's challenges, remainder evaluated at every final position) shows all queried positions consistent. distinct = distinct generated instance".into(),
+        rule: "instances: blowup 2..32 x folding 2..16 x remainder max degree 0..31 x degree bounds 3..511, domain 16..4096, 100 queries (honest-folding acceptance probability <= max(1/blowup,3/4)^q <= 2^-40); functions: random, polynomial of degree bound+1, of degree in (bound+1..domain-1), of degree domain-1, low-degree corrupted on 1/4, 1/2, 3/4 of the domain; strategies (all commit honestly to each folded layer): honest folding, remainder interpolated through the queried points after seeing them, honest remainder + c*vanishing polynomial of the queried points, oversized remainder, one layer value tampered, folding with alpha+1 at one layer (also for genuine low-degree inputs; cases in which alpha+1 folds identically are not deviations and are skipped), a hand-written prover committing in the layout with 2/4/8 partitions (honest folding of the far function; a function unfolded from small polynomials with the coordinates of the rows' leaf indexes and folded with those coordinates), evaluations claimed to the verifier that differ from the committed first layer at queried positions sharing a coset with other queried positions (altered one first / middle / last in the list), a layer omitted / two layers swapped (with and without the matching commitment edit), too small a degree claim for a genuine polynomial. Expected: rejected or unparsable; an acceptance under honest folding is tolerated only if an independent recomputation (last layer refolded with the coin's challenges, remainder evaluated at every final position) shows all queried positions consistent. distinct = distinct generated instance".into(),
         assumptions: vec![
             "finite strategy library: a clean run means none of these strategies was accepted, not soundness".into(),
             "evaluations of test polynomials use the library FFT (C09); refolding uses apply_drp (C15)".into(),
